@@ -604,6 +604,16 @@ func famSeqs(n int, rng *rand.Rand, nrand int) []hSeq {
 	out = append(out, hSeq{"random+opening-run-of-ones", mk(func(i int) bool { return i < 40 || rng.Intn(2) == 1 })})
 	// a walk that leaves 0 at the first step and drifts (extreme of the partial sums at the last step)
 	out = append(out, hSeq{"drifting-up", mk(func(i int) bool { return i%5 != 4 })})
+	// excursion at the start, none in the middle, a larger opposite one at the end: forward and backward walks differ
+	out = append(out, hSeq{"ones-prefix+alternating+zeros-suffix", mk(func(i int) bool {
+		switch {
+		case i < n/80:
+			return true
+		case i >= n-n/40:
+			return false
+		}
+		return i%2 == 0
+	})})
 	return out
 }
 
